@@ -391,6 +391,9 @@ func gmValueBytes(r *rng, n int) []byte {
 var gmOtherKeys = []string{"ABCD", "SHUT", "WBAL", "ISOG", "STMP", "TICK", "VERS", "MTRX", "ORIN", "YAVG", "UNIF", "HUES", "SCEN", "MWET", "EMPT", "RMRK"}
 
 // gmLeaf builds one arbitrary-typed element under an unparsed key.
+// gmBig: also generate payloads beyond 64 KiB (the C06 stream; they make the other streams slow)
+var gmBig bool
+
 func gmLeaf(r *rng, s *sink) []byte {
 	t := gmTypes[r.intn(len(gmTypes))]
 	key := pick(r, gmOtherKeys)
@@ -410,6 +413,14 @@ func gmLeaf(r *rng, s *sink) []byte {
 	}
 	if size*count > 2000 {
 		count = 2000 / size
+	}
+	if gmBig && r.chance(1, 150) {
+		// a payload around and beyond 64 KiB (size x repeat no longer fits 16 bits)
+		count = (65536+r.intn(9000)-3000)/size + 1
+		if count > 65535 {
+			count = 65535
+		}
+		s.count("gm.big_payload")
 	}
 	payload := gmValueBytes(r, size*count)
 	if t.ch == 'U' && size == 16 {
@@ -664,6 +675,7 @@ func gmLoadCaptures(cfg *config) {
 
 func genGM(cfg *config, r *rng, i int, s *sink) string {
 	gmLoadCaptures(cfg)
+	gmBig = cfg.prop == "C06"
 	stream := []string{"wf", "wf", "wf", "wf", "wf", "mut", "mut", "mutcap", "rand", "wf"}[i%10]
 	switch cfg.prop {
 	case "C09":
